@@ -50,7 +50,7 @@ def spec_class(ctrls):
     return "int+float"
 
 
-def schedules():
+def schedules(tier="quick"):
     """schedule = tuple of controls (step, side, spec, map) in insertion order."""
     out = []
     steps, sides = range(N + 1), ("pre", "post")
@@ -67,6 +67,14 @@ def schedules():
     for st, sd, sp in itertools.product(steps, sides, ("int", "fgrid")):
         for perm in itertools.permutations(nonid, 3):
             out.append(tuple((st, sd, sp, m) for m in perm))
+    if tier == "thorough":
+        # three stacked controls with every mixture of specifications (int / float on grid / float off grid)
+        for st, sd in itertools.product(steps, sides):
+            for sps in itertools.product(SPECS[:3], repeat=3):
+                if len(set(sps)) == 1 and sps[0] in ("int", "fgrid"):
+                    continue
+                for perm in itertools.permutations(nonid, 3):
+                    out.append(tuple((st, sd, sp, m) for sp, m in zip(sps, perm)))
     return out
 
 
@@ -204,7 +212,7 @@ def worker(args):
 
 def run(tier, seed):
     rep = Report(LEVEL)
-    scheds = schedules()
+    scheds = schedules(tier)
     res = pmap(worker, list(enumerate(scheds)), seed=seed)
     nruns = 0
     outcomes = set()
